@@ -230,6 +230,18 @@ def gen_box(seed):
     # the re-drawing mode (own generator, the other draws keep their values): into the box, and the identity inside it
     if random.Random(seed * 5 + 3).random() < 0.2:
         spec['kwds'] = {'symbolic': False, 'clip': False}
+    if seed % 6 == 0:
+        # every sixth box: a coordinate left free on BOTH sides (None, None) next to bounded ones, no degenerate side, so that
+        # neither of the known sub-cases (#min==max, #all-infinite) applies
+        lo2, hi2 = [None], [None]
+        for a, b in list(zip(lo, hi))[1:] + [(-1.0, 2.5)]:
+            fa = -INF if a in (None, '-inf') else float(a)
+            fb = INF if b in (None, 'inf') else float(b)
+            if fa == fb:
+                b = fa + 1.0
+            lo2.append(a)
+            hi2.append(b)
+        spec['min'], spec['max'] = lo2, hi2
     return spec
 
 
@@ -354,6 +366,51 @@ def check_chain(ch, res, stats, nin, only=None):
 
 
 # ----------------------------------------------------------------------------- driver
+GROUPED = [('{a} >= 1.0', '{b} = {a} + 2.0'), ('{a} <= -3.0', '{b} = 2.0*{a}'), ('{a} = 4.0',), ('{b} = 1.5', '{a} >= {b}'), ('{a} = 3.0*2',)]
+
+
+def gen_grouped(seed):
+    """relations given as a TUPLE of strings (one group per string), with the default names, a base letter, or a name list"""
+    rng = random.Random('c13-grouped|%d' % seed)
+    out = []
+    for naming in ('default', 'base-y', 'names'):
+        ng = rng.choice([1, 2, 3])
+        nv = 2 * ng + rng.choice([0, 1])
+        names = {'default': ['x%d' % i for i in range(nv)], 'base-y': ['y%d' % i for i in range(nv)], 'names': AL[:nv]}[naming]
+        texts = ['\n'.join(l.format(a=names[2 * g], b=names[2 * g + 1]) for l in rng.choice(GROUPED)) for g in range(ng)]
+        out.append({'family': 'grouped', 'texts': texts, 'nv': nv, 'naming': naming, 'names': names, 'seed': seed, 'tag': 'grouped|%s|%d' % (naming, ng)})
+    return out
+
+
+def check_grouped(spec, res, stats, nin):
+    import mystic.symbolic as ms
+    key = 'C13/bounded/grouped/'
+    names, nv = spec['names'], spec['nv']
+    kw = {'default': {}, 'base-y': {'variables': 'y'}, 'names': {'variables': list(names)}}[spec['naming']]
+    try:
+        with contextlib.redirect_stdout(io.StringIO()):
+            cons = ms.generate_constraint(ms.generate_solvers(tuple(spec['texts']), nvars=nv, **kw))
+    except Exception as e:
+        res.violation(key + 'builds', '%r %r: %s: %s' % (spec['texts'], kw, type(e).__name__, e), jsonable(spec))
+        return
+    lines = [l.strip().replace(' = ', ' == ') for t in spec['texts'] for l in t.splitlines() if l.strip()]
+    rng = random.Random('c13-grouped-pts|%d|%s' % (spec['seed'], spec['naming']))
+    for _ in range(nin):
+        x = [float(rng.randint(-8, 8)) / 2 for _ in range(nv)]
+        inp = dict(spec, x=list(x))
+        try:
+            y = [float(v) for v in cons(list(x))]
+        except Exception as e:
+            res.violation(key + 'call-succeeds', '%r at %r: %s: %s' % (spec['texts'], x, type(e).__name__, e), jsonable(inp))
+            return
+        env = dict(zip(names, y))
+        res.case('%s%s' % (key, spec['tag']), y != x, None)
+        bad = [l for l in lines if not eval(l, {}, dict(env))]
+        if bad or len(y) != nv:
+            res.violation(key + 'relations-hold', '%r %r: constraint(%r) = %r violates %r' % (spec['texts'], kw, x, y, bad), jsonable(inp))
+            return
+
+
 def _work(job):
     kind, specs, nin = job
     res, stats = Result('', ''), {}
@@ -364,6 +421,9 @@ def _work(job):
             continue
         if kind == 'chain':
             check_chain(spec, res, stats, nin)
+            continue
+        if kind == 'grouped':
+            check_grouped(spec, res, stats, nin)
             continue
         try:
             c = build(spec)
@@ -414,6 +474,8 @@ def run(tier='quick', seed=0):
     jobs = [('rel', progs[i:i + 30], nin) for i in range(0, len(progs), 30)] + \
            [('chain', chains[i:i + 12], nin) for i in range(0, len(chains), 12)] + \
            [('box', boxes[i:i + 3], nbin) for i in range(0, len(boxes), 3)]
+    grouped = [sp for r in range(2 if tier == 'quick' else 20) for sp in gen_grouped(seed * 100 + r)]
+    jobs += [('grouped', grouped[i:i + 3], nin) for i in range(0, len(grouped), 3)]
     tot, fams = {}, {}
     for part, stats in pmap(_work, jobs):
         res.merge(part)
@@ -444,6 +506,8 @@ def replay(inp):
         _c14.check_ne_coupled(dict(inp), res, {}, 24, prop='C13')
     elif spec['family'] == 'boundsconstrain':
         check_box(spec, res, stats, 1, x)
+    elif spec['family'] == 'grouped':
+        check_grouped(dict(inp), res, stats, 24)
     elif spec['family'] == 'interleaved':
         check_chain(spec['chain'], res, stats, 1, only=(spec['target'], x))
     else:
